@@ -290,7 +290,7 @@ SHAPES = {
 def body_dataset(ctx, kind):
     from emsarray.operations.triangulate import triangulate_dataset
     which = int(ctx.int('variant', 0, 3))
-    if kind in ('mesh', 'mesh-small'):
+    if kind in ('mesh', 'mesh-small', 'mesh-attr'):
         names = list(SHAPES)
         # every shape, in an order that depends on the variant (so concave cells sit at different linear indexes)
         chosen = names[which * 3:] + names[:which * 3]
@@ -307,7 +307,11 @@ def body_dataset(ctx, kind):
         if kind == 'mesh-small':
             # the same mesh at a resolution of about ten metres (cell areas ~1e-8 square degrees)
             nodes = [(150.0 + x * 1e-4, -20.0 + y * 1e-4) for x, y in nodes]
-        ds = builders.ugrid((nodes, faces), fill='nan', start_index=which % 2)
+        if kind == 'mesh-attr':
+            # built in memory: integer tables, one-based, the fill value kept as an attribute (also 0 and a valid-looking 4)
+            ds = builders.ugrid((nodes, faces), fill='attr', start_index=1, fill_value=[999999, 0, -1, 4][which])
+        else:
+            ds = builders.ugrid((nodes, faces), fill='nan', start_index=which % 2)
     elif kind == 'cf2d':
         ds = _holes_cf2d(which)
     elif kind == 'cf2d-dart':
@@ -377,6 +381,15 @@ def body_dataset(ctx, kind):
         check_cover(ctx, poly, tri_pts, sides, label=f'cell {n}: ')
         ring = {tuple(c) for c in poly.exterior.coords}
         ctx.check(all(p in ring for t in tri_pts for p in t), f'cell {n}: triangle corners are vertices of the cell')
+    # asked again - after the caller has scribbled over what it was given - the answer is the same
+    kept = [numpy.array(a, copy=True) for a in (vertices, triangles, faces_of)]
+    for a in (vertices, triangles, faces_of):
+        if isinstance(a, numpy.ndarray) and a.flags.writeable and a.size:
+            a[...] = a[::-1].copy()
+            a[0] = a[0] * 0
+    again = triangulate_dataset(ds)
+    ctx.check(all(numpy.asarray(x).shape == y.shape and bool(numpy.array_equal(numpy.asarray(x), y)) for x, y in zip(again, kept)),
+              'triangulating the same dataset again gives the same answer, whatever the caller did with the first one')
 
 
 def _holes_cf2d(which):
@@ -404,7 +417,7 @@ def cases(tier):
         for reverse in (False, True):
             yield Case(f'ears:n{n}:{"rev" if reverse else "fwd"}', body_ears, dict(n=n, reverse=reverse), patches=_tri_patches,
                        max_paths=50000, split=16)
-    for kind in ('mesh', 'mesh-small', 'cf2d', 'cf2d-dart', 'shoc_standard', 'cf1d', 'sparse8') + (() if q else ('sparse16',)):
+    for kind in ('mesh', 'mesh-small', 'mesh-attr', 'cf2d', 'cf2d-dart', 'shoc_standard', 'cf1d', 'sparse8') + (() if q else ('sparse16',)):
         yield Case(f'dataset:{kind}', body_dataset, dict(kind=kind), max_paths=20)
 
 
